@@ -177,6 +177,32 @@ def run(chk):
                         "else out_str \"throw\")" % (mlp, mpt(q)),
                         {"kind": "bezcp", "points": pts, "query": q})
             plan.append(("bezcp", ic, pts, q, ib, abs(off)))
+    # ---------------- Bezier, spherical closest point (haversine Newton with line search) -------------------
+    for _ in range(30 if quick else 400):
+        n = rng.choice([2, 2, 3, 4, 5])
+        lon, lat, ang = rng.uniform(-170, 170), rng.uniform(-70, 70), rng.uniform(0, 2 * PI)
+        ptsd = [(round(lon, 1), round(lat, 1))]
+        for _k in range(n - 1):
+            L = rng.uniform(2, 12)
+            lon, lat = lon + L * math.cos(ang), max(-85.0, min(85.0, lat + L * math.sin(ang)))
+            ang += math.radians(rng.uniform(-50, 50))
+            ptsd.append((round(lon, 1), round(lat, 1)))
+        pr = [((p[0] * PI) * (1 / 180.0), (p[1] * PI) * (1 / 180.0)) for p in ptsd]
+        pl = "%d %s" % (n, " ".join(fhex(p[0]) + " " + fhex(p[1]) for p in pr))
+        mlp = mlist([mpt(p) for p in pr])
+        for _k in range(10):
+            i = rng.randrange(n - 1)
+            t = rng.uniform(-0.1, 1.1)
+            bx, by = pr[i][0] + t * (pr[i + 1][0] - pr[i][0]), pr[i][1] + t * (pr[i + 1][1] - pr[i][1])
+            off = rng.uniform(-0.1, 0.1) if rng.random() < 0.8 else 0.0
+            q = (bx + off * rng.uniform(-1, 1), max(-1.5, min(1.5, by + off * rng.uniform(-1, 1))))
+            if rng.random() < 0.1:
+                q = (q[0] + 2 * PI * rng.choice([-1, 1]), q[1])
+            ic = cs.raw("bezcp s %s %s %s" % (pl, fhex(q[0]), fhex(q[1])),
+                        "let () = (let r = closest_point_spherical n (bezier_build n %s) %s in "
+                        "if r.cl_found then out_vec [r.cl_distance; r.cl_fraction; float_of_int (int_of_nat r.cl_index); fst r.cl_point; snd r.cl_point; fst r.cl_normal; snd r.cl_normal] "
+                        "else out_str \"throw\")" % (mlp, mpt(q)),
+                        {"kind": "bezcp-spherical", "points": pr, "query": q})
     # ---------------- conversions and great circle ---------------------------------------------------
     for _ in range(150 if quick else 3000):
         r = rng.choice([6371000.0, 1.0, rng.uniform(1e3, 7e6)])
